@@ -11,7 +11,9 @@
 //
 // case header: cfgtok=<enc> secrets=<enc,..>   (secrets: shard addresses and rule/config markers the
 //              data responses contain; the monitor scans error bodies for them)
-// op:          q tmpl=<enc> path=<enc> hdr=<none|one|two> tok=<enc> tok2=<enc>
+// op:          q via=<router|mw> tmpl=<enc> path=<enc> hdr=<none|one|two> tok=<enc> tok2=<enc>
+//                (via=router: the real mux; via=mw: one instance of queryTokenChecker built when the case starts)
+//              reload tok=<enc>   the configured token changes while the router keeps running (no obs)
 // ext:         secrets <status> = <n>          number of the secrets the response body contains
 //              ni = <0|1>                      (refusals with a configured token only) the same request against a
 //                                              different, also non-matching configured token gives the identical response
@@ -282,64 +284,115 @@ func configuredToken(r *kit.Rng, class string, first bool) string {
 	return randToken(r, n)
 }
 
+// requestTokens: the request-token classes relative to the token configured at that moment; old is
+// the token that was configured before the last reload ("" when there was none).
+func requestTokens(r *kit.Rng, cfg, old string) []tokreq {
+	var reqs []tokreq
+	reqs = append(reqs, tokreq{"none", "", ""}, tokreq{"one", "", ""},
+		tokreq{"one", " ", ""}, tokreq{"one", "\t", ""}, tokreq{"one", "\n", ""}, tokreq{"one", "  ", ""}) // whitespace-only request tokens
+	if old != "" && old != cfg {
+		reqs = append(reqs, tokreq{"one", old, ""}, tokreq{"two", old, cfg}) // the rotated-out token
+	}
+	if cfg == "" {
+		return append(reqs, tokreq{"one", randToken(r, 1+r.Intn(20)), ""}, tokreq{"one", "x", ""},
+			tokreq{"two", "", randToken(r, 6)}, tokreq{"two", " ", ""}, tokreq{"one", "null", ""}, tokreq{"one", randRunes(r, 4), ""})
+	}
+	other := randToken(r, len(cfg))
+	for other == cfg || other == old {
+		other = randToken(r, len(cfg))
+	}
+	trimmed := strings.TrimSpace(cfg)
+	squeezed := strings.Join(strings.Fields(cfg), "")
+	return append(reqs,
+		tokreq{"one", cfg[:len(cfg)-1], ""},                // longest proper prefix
+		tokreq{"one", cfg[:r.Intn(len(cfg))], ""},          // some proper prefix
+		tokreq{"one", cfg[1:], ""},                         // proper suffix
+		tokreq{"one", cfg + randToken(r, 1+r.Intn(3)), ""}, // extension
+		tokreq{"one", randToken(r, 1) + cfg, ""},           // extension in front
+		tokreq{"one", swapCase(cfg), ""},                   // case variant
+		tokreq{"one", strings.ToUpper(cfg), ""},            // case variant
+		tokreq{"one", strings.ToLower(cfg), ""},            // case variant
+		tokreq{"one", cfg + " ", ""},                       // exact + trailing blank
+		tokreq{"one", " " + cfg, ""},                       // leading blank + exact
+		tokreq{"one", cfg + "\n", ""},                      // exact + newline
+		tokreq{"one", trimmed, ""},                         // trimmed variant (= exact when there is nothing to trim)
+		tokreq{"one", squeezed, ""},                        // all whitespace removed
+		tokreq{"one", other, ""},                           // same length, different
+		tokreq{"one", cfg, ""},                             // exact
+		tokreq{"two", other, cfg},                          // exact only as second value
+		tokreq{"two", "", cfg},                             // empty first value, exact second
+		tokreq{"two", cfg, other},                          // exact as first value
+	)
+}
+
+// reload classes: what the configured token is changed to while the router keeps running
+var reloadClasses = []string{"other-token", "cleared", "whitespace-only"}
+
+const mwTmpl = "middleware-instance" // requests served by ONE kept instance of the middleware (built before the reload)
+
+func phaseOps(reqs []tokreq) []string {
+	var ops []string
+	add := func(via, tmpl, path string, q tokreq) {
+		ops = append(ops, fmt.Sprintf("q via=%s tmpl=%s path=%s hdr=%s tok=%s tok2=%s", via, kit.Enc(tmpl), kit.Enc(path), q.hdr, kit.Enc(q.tok), kit.Enc(q.tok2)))
+	}
+	for _, rt := range queryRoutes() {
+		for _, p := range instantiate(rt.tmpl) {
+			for _, q := range reqs {
+				add("router", rt.tmpl, p, q)
+			}
+		}
+	}
+	for _, q := range reqs {
+		add("mw", mwTmpl, "/query/kept-instance", q)
+	}
+	return ops
+}
+
 func (comp) Gen(r *kit.Rng, maxLen int, tier string) kit.Case {
 	idx := genIdx
 	genIdx++
 	class := cfgClasses[idx%len(cfgClasses)]
 	cfg := configuredToken(r, class, idx == 1)
-	var reqs []tokreq
-	reqs = append(reqs, tokreq{"none", "", ""}, tokreq{"one", "", ""},
-		tokreq{"one", " ", ""}, tokreq{"one", "\t", ""}, tokreq{"one", "\n", ""}, tokreq{"one", "  ", ""}) // whitespace-only request tokens
-	if cfg == "" {
-		reqs = append(reqs, tokreq{"one", randToken(r, 1+r.Intn(20)), ""}, tokreq{"one", "x", ""},
-			tokreq{"two", "", randToken(r, 6)}, tokreq{"two", " ", ""}, tokreq{"one", "null", ""}, tokreq{"one", randRunes(r, 4), ""})
-	} else {
-		other := randToken(r, len(cfg))
-		for other == cfg {
-			other = randToken(r, len(cfg))
-		}
-		trimmed := strings.TrimSpace(cfg)
-		squeezed := strings.Join(strings.Fields(cfg), "")
-		reqs = append(reqs,
-			tokreq{"one", cfg[:len(cfg)-1], ""},                // longest proper prefix
-			tokreq{"one", cfg[:r.Intn(len(cfg))], ""},          // some proper prefix
-			tokreq{"one", cfg[1:], ""},                         // proper suffix
-			tokreq{"one", cfg + randToken(r, 1+r.Intn(3)), ""}, // extension
-			tokreq{"one", randToken(r, 1) + cfg, ""},           // extension in front
-			tokreq{"one", swapCase(cfg), ""},                   // case variant
-			tokreq{"one", strings.ToUpper(cfg), ""},            // case variant
-			tokreq{"one", strings.ToLower(cfg), ""},            // case variant
-			tokreq{"one", cfg + " ", ""},                       // exact + trailing blank
-			tokreq{"one", " " + cfg, ""},                       // leading blank + exact
-			tokreq{"one", cfg + "\n", ""},                      // exact + newline
-			tokreq{"one", trimmed, ""},                         // trimmed variant (= exact when there is nothing to trim)
-			tokreq{"one", squeezed, ""},                        // all whitespace removed
-			tokreq{"one", other, ""},                           // same length, different
-			tokreq{"one", cfg, ""},                             // exact
-			tokreq{"two", other, cfg},                          // exact only as second value
-			tokreq{"two", "", cfg},                             // empty first value, exact second
-			tokreq{"two", cfg, other},                          // exact as first value
-		)
+	// the reload: rotate over the reload classes independently of the first token's class
+	class2 := reloadClasses[(idx/len(cfgClasses))%len(reloadClasses)]
+	if cfg == "" && class2 == "cleared" {
+		class2 = "other-token" // unconfigured -> configured
 	}
-	var ops []string
-	for _, rt := range queryRoutes() {
-		for _, p := range instantiate(rt.tmpl) {
-			for _, q := range reqs {
-				ops = append(ops, fmt.Sprintf("q tmpl=%s path=%s hdr=%s tok=%s tok2=%s", kit.Enc(rt.tmpl), kit.Enc(p), q.hdr, kit.Enc(q.tok), kit.Enc(q.tok2)))
-			}
+	var cfg2 string
+	switch class2 {
+	case "cleared":
+		cfg2 = ""
+	case "whitespace-only":
+		cfg2 = configuredToken(r, "whitespace-only", false)
+		if cfg2 == cfg {
+			cfg2 = cfg + " "
+		}
+	default:
+		cfg2 = configuredToken(r, "ordinary", false)
+		for cfg2 == cfg {
+			cfg2 = configuredToken(r, "ordinary", false)
 		}
 	}
+	ops := phaseOps(requestTokens(r, cfg, ""))
+	ops = append(ops, "reload tok="+kit.Enc(cfg2))
+	ops = append(ops, phaseOps(requestTokens(r, cfg2, cfg))...)
 	enc := make([]string, len(secrets))
 	for i, s := range secrets {
 		enc[i] = kit.Enc(s)
 	}
-	return kit.Case{Header: fmt.Sprintf("cfgtok=%s secrets=%s cls=%s", kit.Enc(cfg), strings.Join(enc, ","), class), Ops: ops}
+	return kit.Case{Header: fmt.Sprintf("cfgtok=%s secrets=%s cls=%s cls2=%s", kit.Enc(cfg), strings.Join(enc, ","), class, class2), Ops: ops}
 }
 
 type runner struct {
 	w   *world
 	cfg string
+	mw  http.Handler // one instance of the token middleware, built when the case starts and kept across reloads
 }
+
+// dataHandler stands for a /query data handler behind the kept middleware instance: it answers with the secrets.
+var dataHandler = http.HandlerFunc(func(w http.ResponseWriter, _ *http.Request) {
+	w.Write([]byte(`{"node":"` + selfAddr + `","rule":"` + ruleMark + `"}`))
+})
 
 func (r *runner) setToken(t string) {
 	r.w.conf.Mux.Lock()
@@ -350,11 +403,27 @@ func (r *runner) setToken(t string) {
 func (comp) NewCase(h []string) kit.Runner {
 	r := &runner{w: getWorld(), cfg: kit.Dec(kit.KV(h, "cfgtok"))}
 	r.setToken(r.cfg)
+	r.mw = route.VerifAuthQueryChecker(r.w.router, dataHandler)
 	return r
 }
 
 func (r *runner) Do(op []string) (string, bool) {
+	if op[0] == "reload" {
+		// the configuration is reloaded while the router keeps running: new token, reload callbacks
+		r.cfg = kit.Dec(kit.KV(op, "tok"))
+		r.setToken(r.cfg)
+		r.w.conf.Reload()
+		return "", false
+	}
 	if op[0] != "q" {
+		return "bad-op", true
+	}
+	handler := r.w.handler
+	switch kit.KV(op, "via") {
+	case "router", "":
+	case "mw":
+		handler = r.mw
+	default:
 		return "bad-op", true
 	}
 	path := kit.Dec(kit.KV(op, "path"))
@@ -366,7 +435,7 @@ func (r *runner) Do(op []string) (string, bool) {
 		req.Header[types.QueryTokenHeader] = []string{kit.Dec(kit.KV(op, "tok")), kit.Dec(kit.KV(op, "tok2"))}
 	}
 	rec := httptest.NewRecorder()
-	r.w.handler.ServeHTTP(rec, req)
+	handler.ServeHTTP(rec, req)
 	body := rec.Body.String()
 	nsec := 0
 	for _, sec := range secrets {
@@ -388,7 +457,7 @@ func (r *runner) Do(op []string) (string, bool) {
 		req2 := httptest.NewRequest("GET", path, nil)
 		req2.Header = req.Header.Clone()
 		rec2 := httptest.NewRecorder()
-		r.w.handler.ServeHTTP(rec2, req2)
+		handler.ServeHTTP(rec2, req2)
 		r.setToken(cfg)
 		same := 0
 		if rec2.Code == rec.Code && rec2.Body.String() == body {
